@@ -331,6 +331,7 @@ def main():
         run.proof_broken.append(f"translator:tensorclass.py:{e}")
     run.build_and_audit(["TdVerif.Props.C15"])
     import c15_ast
+    c15_ast.compile_twins(run, "C15")
     c15_ast.check(run, "C15")      # ast-shape obligations: the hand-transcribed functions still have the shape they were transcribed from
     if run.tier == "thorough" and not run.proof_broken:
         run.leanchecker(["TdVerif.Props.C15"])
